@@ -36,6 +36,8 @@ pub struct PubSub {
     pub owner: Option<&'static str>,
     /// ready-gated sinks (see `World::gate`)
     pub gate: bool,
+    /// every socket is registered before the router's first poll
+    pub burst_reg: bool,
 }
 
 impl PubSub {
@@ -51,7 +53,7 @@ impl PubSub {
             "close": self.close,
             "hostile_frames": self.hostile,
             "any_registration_order": self.any_order,
-            "ready_gated_sinks": self.gate,
+            "ready_gated_sinks": self.gate, "registered_in_one_burst": self.burst_reg,
         })
     }
 
@@ -146,6 +148,9 @@ impl<'s> Env for PsEnv<'s> {
     }
     fn any_order(&self) -> bool {
         self.scn.any_order
+    }
+    fn burst_registration(&self) -> bool {
+        self.scn.burst_reg
     }
 }
 
